@@ -74,4 +74,11 @@ SPECS = {
         "design_ref": "DESIGN.md §4.19",
         "unverified_part": "semantic use of forwarded parameters (same meaning), named-parameter wrappers that accept a parameter and never read it, FunctionPlugin._make_patch_fn static/traced kwargs partition, abstract_eval delegation.",
     },
+    "C09": {
+        "modules": ALL_MODULES,
+        "level_text": "Partial claim. conversion_api.to_onnx is executed symbolically with its pipeline stages as opaque, possibly raising calls: every stage (tracing, context creation, constant binding, input binding, lowering, output binding, finalisation) runs, in that order, while the JAX x64 flag equals enable_double_precision, and the flag is as before on every exit. _force_jax_x64/_temporary_x64 restore the flag on all exits (as in C13). numpy_dtype_to_ir_with_float_policy is proved against the policy table (float32/unknown floats follow the flag, float16/float64 keep their width, never DOUBLE in single precision unless the input is float64). FunctionScope bodies inherit the model's precision.",
+        "level_note": "Trusted: one-cell model of jax.config (no jax.enable_x64 context override active around the call: see known finding D18 in DESIGN.md), numpy dtype lattice tabulated at run time. Constant promotion (bind_const_for_var, _promote_float_array, ir_postprocess) is not under contract in this revision.",
+        "design_ref": "DESIGN.md §4.9",
+        "unverified_part": "constant promotion/downcast functions, a float32 detour inside a plugin lowering, the whole-model 'no DOUBLE tensor anywhere' scan, user_interface.to_onnx's outer _temporary_x64 scope.",
+    },
 }
